@@ -25,6 +25,7 @@ use crate::common::{scratch_dir, Opts, Report, Tier};
 use crate::sched::{explore, ActorBody, ActorCtx, ActorEnv, Exec};
 
 const DEAD_PID: u32 = 999;
+const OLDER_DEAD_PID: u32 = 998;
 const BASE_PID: u32 = 1000;
 const ROOT: &str = "/workspace";
 /// Logical time = number of 20 ms retry sleeps an actor has taken. The real constants are 1 s grace
@@ -46,10 +47,21 @@ enum Leftover {
     TornLock,
     /// torn lock of a dead owner next to the meta of an even older dead owner
     TornLockAndDeadMeta,
+    /// well-formed lock of a dead owner N next to the meta of an OLDER dead owner O (N acquired
+    /// after a corrupt-lock cleanup that left O's meta, and died before writing its own)
+    DeadLockAndOlderDeadMeta,
 }
 
-const LEFTOVERS: [Leftover; 7] =
-    [Leftover::Empty, Leftover::DeadLock, Leftover::DeadLockAndMeta, Leftover::DeadMetaOnly, Leftover::HalfLock, Leftover::TornLock, Leftover::TornLockAndDeadMeta];
+const LEFTOVERS: [Leftover; 8] = [
+    Leftover::Empty,
+    Leftover::DeadLock,
+    Leftover::DeadLockAndMeta,
+    Leftover::DeadMetaOnly,
+    Leftover::HalfLock,
+    Leftover::TornLock,
+    Leftover::TornLockAndDeadMeta,
+    Leftover::DeadLockAndOlderDeadMeta,
+];
 
 #[derive(Clone, Copy, Debug, PartialEq, Eq, Hash)]
 enum Scenario {
@@ -274,6 +286,11 @@ fn write_leftover(data: &PathBuf, leftover: Leftover) {
         Leftover::TornLockAndDeadMeta => {
             std::fs::write(lock_path, &lock_line[..lock_line.len() / 2]).unwrap();
             std::fs::write(meta_path, serde_json::to_string(&meta).unwrap()).unwrap();
+        }
+        Leftover::DeadLockAndOlderDeadMeta => {
+            std::fs::write(lock_path, lock_line).unwrap();
+            let older = AuthorityMeta { endpoint: "http://older-dead".into(), pid: OLDER_DEAD_PID, started_at_ms: 0, workspace_root: ROOT.into() };
+            std::fs::write(meta_path, serde_json::to_string(&older).unwrap()).unwrap();
         }
     }
 }
